@@ -350,6 +350,9 @@ void verif_after_opts(struct arg **operands)
   decompress = b0; force = b1; keep = b2; small = b4; ultra = b5;
   verbose = 0;     /* -v only adds the floating-point ratio report, which is irrelevant here and very costly to bit-blast */
   __CPROVER_assume(om == OM_STDOUT || om == OM_DISCARD || om == OM_REGF); outmode = om;
+#ifdef MAIN_OM          /* the operand-loop obligation is split into one instance per (output mode, direction) */
+  outmode = MAIN_OM; decompress = MAIN_DECOMPRESS;
+#endif
   __CPROVER_assume(lvl >= 1 && lvl <= 9 && nw >= 1); bs100k = lvl; num_worker = nw;
   __CPROVER_assume(n >= 0 && n <= MAIN_MAX_OPERANDS);
   __CPROVER_assume(outmode != OM_REGF || n > 0);          /* opts_setup turns OM_REGF without operands into OM_STDOUT */
